@@ -11,7 +11,7 @@ Nothing under the repository is imported or executed.
 from __future__ import annotations
 
 import ast
-from .canon import canonicalise
+from .canon import canonicalise, restore_local_names
 import os
 import warnings
 from typing import Dict, List, Optional, Tuple, Iterable
@@ -201,7 +201,7 @@ class ModuleInfo:
         self.src = src
         with warnings.catch_warnings():
             warnings.simplefilter("ignore")
-            self.tree = canonicalise(ast.parse(src, filename=relpath))
+            self.tree = canonicalise(ast.parse(src, filename=relpath), relpath)
         self.functions: Dict[str, FuncInfo] = {}
         self.classes: Dict[str, ClassInfo] = {}
         self.imports: Dict[str, str] = {}  # local alias -> dotted target
